@@ -88,7 +88,13 @@ class ExcelInPython:
             return date
 
         try:
-            return date_parser.parse(date)
+            # dateutil takes the fields a text leaves out from the default - today, when none is given - so
+            # only a text that reads as the same day against two unrelated defaults is a date
+            parsed = date_parser.parse(date, default=datetime.datetime(2000, 1, 1))
+            if parsed.date() != date_parser.parse(date, default=datetime.datetime(2011, 3, 2)).date():
+                return None
+
+            return parsed
         except (date_parser.ParserError, TypeError):
             return None
 
